@@ -59,6 +59,8 @@ type rcase struct {
 	Detail    any    `json:"detail,omitempty"`
 	// the in-process phases (hook.go): kind hookbulk | hookcancel, or race with the -hook workload
 	Hook json.RawMessage `json:"hook,omitempty"`
+	// kind tiny (tiny.go): the small documents of one schema that show the violation
+	Tiny *conc.TinyProblem `json:"tiny,omitempty"`
 }
 
 func env() []string {
@@ -116,11 +118,17 @@ func Run(c *core.Ctx) int {
 	}
 	cross := conc.CrossAddons(inputs)
 	docs := append(append(append([]conc.Doc{}, cross...), inputs...), outputs...)
+	small := conc.TinyCorpus(3)
+	docs = append(docs, small...)
+	c.Count("docs.small(one member, derived from the schema registry)", int64(len(small)))
 	c.Count("docs.example-inputs", int64(len(inputs)))
 	c.Count("docs.example-outputs", int64(len(outputs)))
 	c.Count("docs.regime-x-addon", int64(len(cross)))
 
+	t0 := time.Now()
 	frozenAndEquivalence(c, docs, before)
+	c.Note("frozen registries + result equivalence over %d documents: %.1fs", len(docs), time.Since(t0).Seconds())
+	tinyDocuments(c)
 	raceRuns(c, race)
 	hk := startHookRace(c, race) // (7) in the background while (5), (6) and (1) run
 	hookInProcess(c, inputs, outputs)
@@ -1149,6 +1157,8 @@ func replay(c *core.Ctx, rc rcase, gobl, race string, before *conc.Snapshot) {
 		return
 	}
 	switch rc.Kind {
+	case "tiny":
+		replayTiny(c, rc)
 	case "equiv":
 		d := conc.Doc{Name: rc.Name, Data: []byte(rc.Data)}
 		seq := conc.Pipeline(d)
